@@ -3,6 +3,20 @@
 //! caught and reported as {"panic": msg}.
 mod common;
 mod partition;
+mod filter;
+mod filterset;
+mod dispatcher;
+mod classify;
+mod backoff;
+mod fq;
+mod shellwords;
+mod command;
+mod overrides;
+mod scripts;
+mod reader;
+mod archive;
+mod timers;
+mod junit;
 
 use std::io::{BufRead, Write};
 
@@ -11,6 +25,20 @@ fn main() {
     let sub = args.get(1).map(String::as_str).unwrap_or("");
     let f: fn(&serde_json::Value) -> serde_json::Value = match sub {
         "partition" => partition::run,
+        "filter" => filter::run,
+        "filterset" => filterset::run,
+        "dispatcher" => dispatcher::run,
+        "classify" => classify::run,
+        "backoff" => backoff::run,
+        "fq" => fq::run,
+        "shellwords" => shellwords::run,
+        "command" => command::run,
+        "overrides" => overrides::run,
+        "scripts" => scripts::run,
+        "reader" => reader::run,
+        "archive" => archive::run,
+        "timers" => timers::run,
+        "junit" => junit::run,
         _ => {
             eprintln!("unknown subcommand {sub:?}");
             std::process::exit(2);
